@@ -107,6 +107,34 @@ Corollary Prune_getz r k : wf r -> getz (Prune r) k = getz r k.
 Proof. intros H. rewrite !getz_get, Prune_get by assumption. unfold prune_at.
   destruct (get r k) as [v|]; [|reflexivity]. destruct (Z.eqb_spec v 0) as [->|]; reflexivity. Qed.
 
+(* ---- well-formedness (no duplicate keys) of the remaining results ---- *)
+Lemma SubOnlyExisting_wf b d : owf b -> owf (SubOnlyExisting b d).
+Proof. unfold owf. destruct b as [bb|], d as [dd|]; cbn [SubOnlyExisting oget]; auto.
+  intros H. apply (wf_map_val (fun kv => subVal (snd kv) (getz dd (fst kv)))). assumption. Qed.
+Lemma AddOnlyExisting_wf b d : owf b -> owf (AddOnlyExisting b d).
+Proof. unfold owf. destruct b as [bb|], d as [dd|]; cbn [AddOnlyExisting oget]; auto.
+  intros H. apply (wf_map_val (fun kv => addVal (snd kv) (getz dd (fst kv)))). assumption. Qed.
+Lemma Multiply_wf b ratio : owf b -> wf (Multiply b ratio).
+Proof. unfold owf. destruct b as [bb|]; cbn [Multiply oget]; [|intros; apply wf_nil].
+  destruct (ratio =? 0); [intros; apply wf_nil|]. intros H.
+  apply (wf_map_val (fun kv => mulVal (snd kv) ratio)). assumption. Qed.
+Lemma ComponentWiseMinOnlyExisting_wf l r : owf l -> owf (ComponentWiseMinOnlyExisting l r).
+Proof. unfold owf. destruct l as [a|], r as [b|]; cbn [ComponentWiseMinOnlyExisting oget]; auto.
+  intros H. apply (wf_map_val (fun kv => match get b (fst kv) with Some v => zmin (snd kv) v | None => snd kv end)). assumption. Qed.
+Lemma merge_fold_wf a b : forall out, wf out ->
+  wf (fold_left (fun out kv => if has a (fst kv) then out else set (fst kv) (snd kv) out) b out).
+Proof. induction b as [|[k v] t IH]; intros out H; [assumption|]. cbn [fold_left fst snd].
+  destruct (has a k); apply IH; [assumption|apply wf_set; assumption]. Qed.
+Lemma MergeIfNotPresent_wf l r : owf l -> owf r -> owf (MergeIfNotPresent l r).
+Proof. unfold owf. destruct l as [a|], r as [b|]; cbn [MergeIfNotPresent oget]; auto.
+  intros Ha _. apply merge_fold_wf. assumption. Qed.
+Lemma Prune_wf r : wf r -> wf (Prune r).
+Proof. unfold wf, Prune. induction r as [|[k v] t IH]; intros H; [assumption|].
+  inversion H as [|? ? Hni Hnd]; subst. cbn [filter snd]. destruct (negb (v =? 0)); [|auto].
+  cbn. constructor; [|auto]. intros Hin. apply Hni.
+  clear - Hin. induction t as [|[k2 v2] t IH]; [assumption|]. cbn [filter snd] in Hin.
+  destruct (negb (v2 =? 0)); cbn in *; [destruct Hin; auto|auto]. Qed.
+
 (* ---- results stay within int64 ---- *)
 Lemma pointwise_in_range out : wf out ->
   (forall k v, get out k = Some v -> in_range v) -> res_in_range out.
